@@ -87,6 +87,9 @@ func (w *walker) stmt(st *state, s ast.Stmt, label string) *state {
 		w.expr(st, s.X, false)
 		w.endStmt(st)
 	case *ast.SendStmt:
+		if _, name, ok := chanField(s.Chan); ok && w.record {
+			w.an.sentTo[name] = true
+		}
 		w.expr(st, s.Chan, false)
 		w.expr(st, s.Value, false)
 		w.endStmt(st)
@@ -124,12 +127,14 @@ func (w *walker) stmt(st *state, s ast.Stmt, label string) *state {
 		if _, _, ok := mutexCall(s.Call); ok {
 			return st // released at function exit: held for the rest of the body
 		}
+		w.inDefer = true
 		if fl, ok := unparen(s.Call.Fun).(*ast.FuncLit); ok {
 			w.exprs(st, s.Call.Args, false)
 			w.inlineClosure(st, fl, false) // runs at exit: nothing assumed held
 		} else {
 			w.expr(st, s.Call, false)
 		}
+		w.inDefer = false
 		w.endStmt(st)
 	case *ast.ReturnStmt:
 		w.exprs(st, s.Results, false)
@@ -161,10 +166,18 @@ func (w *walker) stmt(st *state, s ast.Stmt, label string) *state {
 		st = w.stmt(st, s.Init, "")
 		w.expr(st, s.Cond, false)
 		w.endStmt(st)
-		a := w.block(st.clone(), s.Body.List)
+		thenSt := st.clone()
+		for _, it := range w.ownershipIf(s.Cond) {
+			thenSt.held[it] = true // this goroutine stored the object: it is its only owner until it hands it on
+		}
+		a := w.block(thenSt, s.Body.List)
 		b := st
 		if s.Else != nil {
-			b = w.stmt(st.clone(), s.Else, "")
+			elseSt := st.clone()
+			for _, it := range w.ownershipElse(s.Cond) {
+				elseSt.held[it] = true
+			}
+			b = w.stmt(elseSt, s.Else, "")
 		}
 		if a.dead && b.dead {
 			return dead()
@@ -210,6 +223,7 @@ func (w *walker) stmt(st *state, s ast.Stmt, label string) *state {
 }
 
 func (w *walker) assign(st *state, s *ast.AssignStmt) {
+	w.noteLoadOrStore(s)
 	w.exprs(st, s.Rhs, false)
 	for i, l := range s.Lhs {
 		if id, ok := l.(*ast.Ident); ok {
@@ -378,7 +392,107 @@ func (w *walker) goStmt(st *state, s *ast.GoStmt) {
 		if _, ok := w.an.classes[cls]; !ok {
 			w.an.classes[cls] = singleFns[rootName(w.u.name)]
 		}
-		w.recordCall(newState(), fn, nil, nil, cls, c.Pos())
+		// ownership tokens of the receiver / arguments go with the new goroutine
+		give := newState()
+		var recvExpr ast.Expr
+		if se, ok := c.Fun.(*ast.SelectorExpr); ok {
+			if sel := info.Selections[se]; sel != nil && sel.Kind() == types.MethodVal {
+				recvExpr = se.X
+			}
+		}
+		for it := range st.held {
+			if !it.Glob && (strings.HasSuffix(it.Mu, ".own") || strings.HasPrefix(it.Mu, "!")) {
+				for _, e := range append([]ast.Expr{recvExpr}, c.Args...) {
+					if e != nil {
+						if k, _ := exprKey(e); k == it.Key {
+							give.held[it] = true
+						}
+					}
+				}
+			}
+		}
+		w.recordCall(give, fn, recvExpr, c.Args, cls, c.Pos())
+		for it := range give.held {
+			delete(st.held, it)
+		}
+	}
+}
+
+// ownershipIf: `if !loaded {` where loaded comes from v, loaded := m.LoadOrStore(k, x) on a sync.Map: in the branch this
+// goroutine is the one that stored the object - nobody else owns it. Modelled as a virtual mutex "T.own" of the object.
+func (w *walker) ownershipIf(cond ast.Expr) []lockItem {
+	u, ok := unparen(cond).(*ast.UnaryExpr)
+	if !ok || u.Op != token.NOT {
+		return nil
+	}
+	id, ok := unparen(u.X).(*ast.Ident)
+	if !ok {
+		return nil
+	}
+	return w.ownerItems(info.ObjectOf(id))
+}
+
+func (w *walker) ownerItems(loadedFlag types.Object) []lockItem {
+	var out []lockItem
+	for _, v := range w.winner[loadedFlag] {
+		if tn, ok := trackedName(v.Type()); ok && isPointer(v.Type()) {
+			out = append(out, lockItem{Key: keyOfObj(v), Mu: tn + ".own"})
+			if st, _ := deref(v.Type()).Underlying().(*types.Struct); st != nil {
+				for i := 0; i < st.NumFields(); i++ {
+					if _, isChan := st.Field(i).Type().Underlying().(*types.Chan); isChan {
+						// the owner is the only goroutine that will close the object's channels
+						out = append(out, lockItem{Key: keyOfObj(v), Mu: "!" + tn + "." + st.Field(i).Name()})
+					}
+				}
+			}
+		}
+	}
+	return out
+}
+
+// `if loaded { ... } else { <owner> }`
+func (w *walker) ownershipElse(cond ast.Expr) []lockItem {
+	id, ok := unparen(cond).(*ast.Ident)
+	if !ok {
+		return nil
+	}
+	return w.ownerItems(info.ObjectOf(id))
+}
+
+// noteLoadOrStore records v, loaded := m.LoadOrStore(..) and later aliases x := v.(*T)
+func (w *walker) noteLoadOrStore(s *ast.AssignStmt) {
+	if w.winner == nil {
+		w.winner = map[types.Object][]types.Object{}
+	}
+	if len(s.Lhs) == 2 && len(s.Rhs) == 1 {
+		if c, ok := s.Rhs[0].(*ast.CallExpr); ok {
+			if fn := calleeFunc(c); fn != nil && fn.Pkg() != nil && fn.Pkg().Path() == "sync" && fn.Name() == "LoadOrStore" {
+				v, _ := s.Lhs[0].(*ast.Ident)
+				l, _ := s.Lhs[1].(*ast.Ident)
+				if v != nil && l != nil && info.ObjectOf(l) != nil && info.ObjectOf(v) != nil {
+					w.winner[info.ObjectOf(l)] = []types.Object{info.ObjectOf(v)}
+				}
+				return
+			}
+		}
+	}
+	if len(s.Lhs) == 1 && len(s.Rhs) == 1 {
+		if ta, ok := s.Rhs[0].(*ast.TypeAssertExpr); ok {
+			if src, ok := unparen(ta.X).(*ast.Ident); ok {
+				dst, _ := s.Lhs[0].(*ast.Ident)
+				if dst == nil || info.ObjectOf(dst) == nil {
+					return
+				}
+				for l, vs := range w.winner {
+					for _, v := range vs {
+						if v == info.ObjectOf(src) {
+							w.winner[l] = append(w.winner[l], info.ObjectOf(dst))
+							break
+						}
+					}
+				}
+			}
+		}
 	}
 }
 
